@@ -140,6 +140,7 @@ class Link:
         self.name = name
         self.message_mode = message_mode
         self.buf = bytearray()  # byte mode: written, not yet delivered
+        self._held = []  # byte mode, link not pumped: objects written and not yet turned into bytes
         self.msgs = collections.deque()  # message mode
         self.written = 0
         self.delivered = 0
@@ -168,12 +169,25 @@ class Link:
         if self.message_mode:
             self.msgs.append(bytes(data))
             self.msg_history.append(bytes(data))
-        else:
+        elif self.auto:
+            # a writable socket: the bytes leave the process at once
+            self._materialise()
             self.buf += data
             self.history += data
+        else:
+            # a socket that is not writable: asyncio's transport keeps the object it was given until it can send it
+            self._held.append(data)
         if self.auto:
             self.schedule_auto()
         return True
+
+    def _materialise(self):
+        if self._held:
+            for obj in self._held:
+                b = bytes(obj)
+                self.buf += b
+                self.history += b
+            self._held.clear()
 
     def schedule_auto(self):
         if not self._auto_scheduled and self.sink is not None:
@@ -190,6 +204,7 @@ class Link:
             self.deliver_bytes()
 
     def pending(self):
+        self._materialise()
         return len(self.msgs) if self.message_mode else len(self.buf)
 
     # network
@@ -197,6 +212,7 @@ class Link:
         """Byte mode: move up to n pending bytes to the receiver. Returns the number moved."""
         if self.message_mode:
             raise HarnessError('deliver_bytes on a message link')
+        self._materialise()
         if self.cut_mode is not None:
             self.buf.clear()
             return 0
@@ -250,6 +266,12 @@ class Link:
             if self.on_cut_after is not None:
                 self.on_cut_after(self.cut_after_mode)
             return count + 1
+        if self.sender_closed and not self.msgs and not self.eof_sent and self.sink is not None:
+            # the sending endpoint closed its transport: the receiving side's message loop ends (modelled, like a cut, as
+            # the transport reporting the end of the connection)
+            self.eof_sent = True
+            self.sink.feed_eof()
+            return count + 1
         return count
 
     def cut(self, mode):
@@ -257,6 +279,7 @@ class Link:
         if self.cut_mode is not None:
             return
         self.cut_mode = mode
+        self._held.clear()
         self.buf.clear()
         self.msgs.clear()
         if self.sink is not None:
@@ -265,7 +288,22 @@ class Link:
                     self.eof_sent = True
                     self.sink.feed_eof()
             else:
-                self.sink.feed_error()
+                self.sink.feed_error(mode)
+
+
+ERROR_MODES = ('error', 'etimedout', 'ehostunreach', 'epipe')
+
+
+def transport_exception(mode):
+    """What the read side of a lost connection raises, by failure mode (asyncio hands the OSError through)."""
+    import errno
+    if mode == 'etimedout':
+        return TimeoutError(errno.ETIMEDOUT, 'simnet: connection timed out')
+    if mode == 'ehostunreach':
+        return OSError(errno.EHOSTUNREACH, 'simnet: no route to host')
+    if mode == 'epipe':
+        return BrokenPipeError(errno.EPIPE, 'simnet: broken pipe')
+    return ConnectionResetError('simnet: connection reset by peer')
 
 
 class FakeWriter:
@@ -286,6 +324,7 @@ class FakeWriter:
         self.close_calls = 0
         self.capture = None
         self.reset = False  # the connection was lost with an error (not an orderly EOF)
+        self.delay = 0.0
 
     def write(self, data):
         self.writes += 1
@@ -294,11 +333,13 @@ class FakeWriter:
             self.capture.append(bytes(data))
         if self.closed:
             return
-        self.link.write(bytes(data))
+        self.link.write(data)
 
     async def drain(self):
         if self.fail_writes:
             raise ConnectionResetError('simnet: connection reset')
+        if self.delay:
+            await asyncio.sleep(self.delay)  # a slow link: every write takes this much (virtual) time to drain
         while self.blocked:
             await self._gate.wait()
         if self.fail_writes:
@@ -355,10 +396,10 @@ class ReaderSink:
             self.eof = True
             self.reader.feed_eof()
 
-    def feed_error(self):
+    def feed_error(self, mode='error'):
         if not self.failed and not self.eof:
             self.failed = True
-            self.reader.set_exception(ConnectionResetError('simnet: connection reset by peer'))
+            self.reader.set_exception(transport_exception(mode))
 
 
 _classes = {}
@@ -467,6 +508,7 @@ def transport_classes():
             self.fail_writes = False
             self.closed = False
             self.bytes_written = 0
+            self.delay = 0.0
 
         async def send_frame(self, frame):
             e = self.world.ev(self.side, 'send', f=snap_frame(frame), tr=id(self), cx=self.cx)
@@ -476,6 +518,8 @@ def transport_classes():
                 data = frame.serialize()
                 e['wire_len'] = len(data)
                 note_wire(e, data)
+                if self.delay:
+                    await asyncio.sleep(self.delay)
                 while self.blocked:
                     await self._gate.wait()
                 if self.fail_writes or self.closed:
@@ -503,6 +547,8 @@ def transport_classes():
                 self.closed = True
                 self.world.ev(self.side, 'transport_close')
                 self.out_link.sender_closed = True
+                if self.out_link.auto:
+                    self.out_link.schedule_auto()
                 self.unblock()
 
         # sink interface for the incoming link
@@ -518,7 +564,7 @@ def transport_classes():
         def feed_eof(self):
             self.feed_error()
 
-        def feed_error(self):
+        def feed_error(self, mode='error'):
             self._incoming_frame_queue.put_nowait(RSocketTransportError())
 
     _classes.update(TapTCP=TapTCP, TapMsg=TapMsg)
@@ -606,7 +652,7 @@ class Conn:
         if fail_writes:
             for w in self.writer.values():
                 w.fail_writes = True
-                if mode == 'error':
+                if mode != 'eof':
                     w.reset = True
                 w.unblock()
 
